@@ -1,13 +1,34 @@
 import YaqsModel.Basic.Parse
 import YaqsModel.Model.Rank
+import YaqsModel.Model.Bonds
 /-! line protocol for the rank rules:  `<rule> <params…> | s0 s1 …`  →  kept rank (or `err`) -/
-open Yaqs Yaqs.Rank
+open Yaqs Yaqs.Rank Yaqs.Bonds
 
 def parseCap? (w : String) : Option (Option Nat) :=
   if w = "none" then some none else (w.toNat?).map some
 
+/-- `inv <maxB> <minB> | init bonds | observed bonds` → `ok` or the indices violating `Bonds.bound`;
+    `invfull …` uses the bound of the property proper (without the floor 2 of the SVD shift). -/
+def handleInv (full : Bool) (mx mn : Nat) (init obs : List Nat) : String :=
+  let c : Cfg := { mode := .dw, thr := 0, minB := mn, maxB := mx }
+  let idx := (List.range obs.length).filter (fun i =>
+    let b := if full then max (max mx mn) (init.getD i 1) else bound c init i
+    obs.getD i 1 > b)
+  if obs.length ≠ init.length then "len-mismatch"
+  else if idx.isEmpty then "ok" else "viol " ++ joinWith " " (idx.map toString)
+
 def handle (line : String) : String :=
   match splitBar (words line) with
+  | [["qr", d, l, b]] =>
+    match d.toNat?, l.toNat?, b.toNat? with
+    | some d, some l, some b => toString (min (d * l) b)
+    | _, _, _ => "bad-op"
+  | [[tag, mx, mn], ini, ob] =>
+    if tag = "inv" ∨ tag = "invfull" then
+      match mx.toNat?, mn.toNat?, parseAll? String.toNat? ini, parseAll? String.toNat? ob with
+      | some mx, some mn, some i, some o => handleInv (tag = "invfull") mx mn i o
+      | _, _, _, _ => "bad-op"
+    else "bad-op"
   | [hd, sp] =>
     match parseAll? parseRat? sp with
     | none => "bad-op"
